@@ -8,6 +8,7 @@ import (
 	"sort"
 	"sync"
 	"sync/atomic"
+	"time"
 )
 
 // Litmus maps a name to a program that returns its observable outcome.
@@ -382,4 +383,37 @@ func selectLoopDrain() string {
 		s += v
 	}
 	return fmt.Sprint(s, workers >= 1 && workers <= 2)
+}
+
+func init() {
+	Litmus["timer-vs-stop"] = timerVsStop
+	Litmus["timer-stopped"] = timerStopped
+}
+
+// timerVsStop: a wait that can be interrupted; both orders are possible once stop is closed.
+func timerVsStop() string {
+	stop := make(chan struct{})
+	close(stop)
+	t := time.NewTimer(0)
+	defer t.Stop()
+	select {
+	case <-t.C:
+		return "timer"
+	case <-stop:
+		return "stop"
+	}
+}
+
+// timerStopped: a stopped timer never fires.
+func timerStopped() string {
+	t := time.NewTimer(time.Hour)
+	if !t.Stop() {
+		return "was not armed"
+	}
+	select {
+	case <-t.C:
+		return "fired"
+	default:
+		return "quiet"
+	}
 }
